@@ -79,5 +79,11 @@ check("C16", "other",
       "region-tracked abstract template instantiation (which Go text came from {{if emit_bounds}}), effect check of those regions, pattern rules on the bounds computation",
       "DESIGN.md 3/C16")
 
-for pid in ["C12","C14","C15","C17"]:
+check("C12", "other",
+      "Decides six families of crash / silent failure that are visible in code shape, each exact: panics of front-end actions whose condition depends on grammar text (bounded-conversion exception verified from the callers' slice widths); results of functions with an explicit `return nil` dereferenced before a nil check on some CFG path; the front end's 'validated by the lexer' beliefs checked against the grammar source and the checked-in lexer tables (token-type switches with panicking defaults cover every token the productions can deliver; after a backslash the table admits only the letters unescape handles, each followed by exactly the digits it reads, and never ends the token at the backslash); closed enum / type switches with panicking defaults; loader and scope results used only under a dominating check; exit discipline (non-zero exit iff error, success only after all three emitters wrote, every failing return preceded by a diagnostic); the binding verdicts whose omission ends in an assert.",
+      "Not decided: hangs, stack/heap exhaustion, panics inside Jet / go/format / go/packages, index arithmetic in rang3 and on_char_class, i.e. absence of ALL panics for all byte strings.",
+      "CFG nil-check-before-deref analysis over call sites of nil-returning functions; exhaustiveness of panicking switches against produced constants / grammar productions; simulation of decoded lexer tables (constants in source) against unescape's case labels; must-precede diagnostics rule",
+      "DESIGN.md 3/C12")
+
+for pid in ["C14","C15","C17"]:
     na(pid, "check under construction in this session; see DESIGN.md section 3 for the planned rules")
